@@ -31,7 +31,7 @@ def PostAt (st : Core) (e : Nat) : Prop :=
 
 /-- **The loop of `match_by_line_slow` on a window and on the whole buffer, exactly shifted**: for
 every sink script, with context lines. -/
-theorem slowLoop_sim {cfg : Config} {B pre w post : Bytes} (W : Win B pre w post) (hbin : cfg.binary = .none)
+theorem slowLoop_sim {cfg : Config} {B pre w post : Bytes} (W : WinOf B pre w post) (hbin : cfg.binary = .none)
     (m : MatcherI) (σ : Script) (ls : List Bytes) :
     ∀ (prew : Bytes) (s1 s2 : Core), ESim cfg B w pre.length s1 s2 →
       w.take (prew.length + ls.flatten.length) = prew ++ ls.flatten →
@@ -157,7 +157,7 @@ theorem slowLoop_sim {cfg : Config} {B pre w post : Bytes} (W : Win B pre w post
         -- before context, then the match itself
         have E0 := E.setPos (prew.length + l.length) true
         simp only [Bool.or_true] at E0
-        have hb := beforeContextByLine_sim W hbin σ E0 prew.length hllv (by omega) (hX0.imp id (fun h => h.2))
+        have hb := beforeContextByLine_sim W hbin σ E0 prew.length hllv (by omega) (hX0.imp id (fun h => h.imp (fun h2 => h2.2) id))
         generalize beforeContextByLine cfg σ B
           { s1 with pos := prew.length + l.length + pre.length, hasMatched := true } (prew.length + pre.length) = g1 at hb ⊢
         generalize beforeContextByLine cfg σ w
@@ -178,15 +178,19 @@ theorem slowLoop_sim {cfg : Config} {B pre w post : Bytes} (W : Win B pre w post
             refine sinkMatched_sim W hbin σ (hb.1.cont rfl) prew.length (prew.length + l.length) hb2.1
               (by omega) (by omega) ?_
             cases hb2.2 with
-            | inl ht => rw [ht]; simp
+            | inl ht => right; rw [ht]; simp
             | inr hu =>
               rw [hu.1, hu.2]
               cases hX0 with
-              | inl ht => show decide (s1.lastLineVisited < _) = decide (s2.lastLineVisited < _); rw [ht]; simp
-              | inr hF =>
-                obtain ⟨_, Z, F2, F1⟩ := hF
-                show decide (s1.lastLineVisited < _) = decide (s2.lastLineVisited < _)
-                rw [decide_eq_true F1.lt, decide_eq_true F2.lt]
+              | inl ht => right; show decide (s1.lastLineVisited < _) = decide (s2.lastLineVisited < _); rw [ht]; simp
+              | inr hF0 =>
+                cases hF0 with
+                | inl hF =>
+                  obtain ⟨_, Z, F2, F1⟩ := hF
+                  right
+                  show decide (s1.lastLineVisited < _) = decide (s2.lastLineVisited < _)
+                  rw [decide_eq_true F1.lt, decide_eq_true F2.lt]
+                | inr h0 => exact Or.inl h0
       refine hafter true _ _ hstep (fun hok => ?_)
       have hok1 := hstep.res.trans hok
       have hp0 := beforeContextByLine_pos hbin σ w { s2 with pos := prew.length + l.length, hasMatched := true } prew.length
@@ -267,10 +271,13 @@ theorem slowLoop_sim {cfg : Config} {B pre w post : Bytes} (W : Win B pre w post
           refine ⟨⟨by show s2.lastLineVisited ≤ _; omega, rfl, Or.inr (by show s2.afterContextLeft = 0; omega)⟩, fun ht => ?_⟩
           cases hX0 with
           | inl hT => exact Or.inl hT
-          | inr hF =>
-            obtain ⟨h0, Z, F2, F1⟩ := hF
-            refine Or.inr ⟨h0, Z ++ [l], F2.extend l hl ht (by omega), ?_⟩
-            have := F1.extend l (by rw [show prew.length + pre.length + l.length = prew.length + l.length + pre.length by omega]; exact hlB) ht (by omega)
-            rw [show prew.length + pre.length + l.length = prew.length + l.length + pre.length by omega] at this
-            exact this
+          | inr hF0 =>
+            cases hF0 with
+            | inr hz => exact Or.inr (Or.inr hz)
+            | inl hF =>
+              obtain ⟨h0, Z, F2, F1⟩ := hF
+              refine Or.inr (Or.inl ⟨h0, Z ++ [l], F2.extend l hl ht (by omega), ?_⟩)
+              have := F1.extend l (by rw [show prew.length + pre.length + l.length = prew.length + l.length + pre.length by omega]; exact hlB) ht (by omega)
+              rw [show prew.length + pre.length + l.length = prew.length + l.length + pre.length by omega] at this
+              exact this
 end RgVerif.Searcher
